@@ -13,7 +13,7 @@ ASSUMPTIONS = ['hashlib for MD5/SHA/BLAKE2', 'own MD4/SHA-0/BLAKE references', '
 ANCHORS = [('padding.py', 'blockiterator.iterblocks'), ('blake.py', 'Blake2.iterblocks'), ('blake.py', 'Blake2.update'), ('blake.py', 'Blake.update'),
            ('sha.py', 'SHA1.update'), ('sha.py', 'SHA2.update'), ('md.py', 'MD4.update'), ('md.py', 'MD5.update'),
            ('nilsimsa.py', 'Nilsimsa.update'), ('nilsimsa.py', 'Nilsimsa.digest')]
-REQUIRED = ['interleaved:piecewise==reference', 'piecewise==oneshot', 'piecewise==reference', 'bitcnt-after-piece', 'nilsimsa:cut==oneshot', 'nilsimsa:cut==model']
+REQUIRED = ['refused-piece:piecewise==reference', 'fresh-object-update==reference', 'interleaved:piecewise==reference', 'piecewise==oneshot', 'piecewise==reference', 'bitcnt-after-piece', 'nilsimsa:cut==oneshot', 'nilsimsa:cut==model']
 NSHARDS = 14
 SAN = {'quick': (2, 40), 'thorough': (2, 40)}
 HASHES = c01.ALGS + ['blake224', 'blake256', 'blake384', 'blake512', 'blake2b', 'blake2s']
@@ -61,6 +61,14 @@ def cases(tier, rng):
                 yield {'k': 'long', 'h': name, 'j': j}
     for j in range(len(HASHES) * (6 if tier == 'quick' else 40)):
         yield {'k': 'interleaved', 'h': HASHES[j % len(HASHES)], 'other': HASHES[(j * 7 + j // len(HASHES)) % len(HASHES)], 'j': j}
+    for name in HASHES:
+        for j in range(4 if tier == 'quick' else 30):
+            yield {'k': 'refused-piece', 'h': name, 'j': j}
+        if not name.startswith('blake'):
+            for j in range(3 if tier == 'quick' else 20):
+                yield {'k': 'no-initstate', 'h': name, 'j': j}
+    for n in range(0, 25 if tier == 'thorough' else 17):
+        yield {'k': 'nil-3pieces', 'n': n}
     for n in range(0, 65 if tier == 'thorough' else 41):
         yield {'k': 'nil-allcuts', 'n': n, 'target': [None, 53, 11, 200][n % 4]}
     for j in range(40 if tier == 'quick' else 600):
@@ -135,6 +143,53 @@ def run(case, ctx, rng):
             ctx.eq('interleaved:piecewise==reference', got[1], external(other, N), stream='second', **det)
             ctx.eq('interleaved:piecewise==reference', got[2], external(name, M[:7]), stream='one-shot sibling', **det)
             ctx.eq('bitcnt-after-piece', list(got[3]), [8 * B, 16 * B], interleaved=True, **det)
+    elif k == 'refused-piece':
+        # fault sequence: a piece that is refused (not block-aligned without padding, or not bytes) in the middle of a stream;
+        # the stream continues with correct pieces and must still give the one-shot digest
+        name = case['h']
+        B, w = info(name)
+        ctx.cls((name, 'refused-piece', case['j'] % 4))
+        M = rng.randbytes(3 * B + rng.choice([1, B - 1, B // 2]))
+        def run_():
+            h = make(name); h.initstate()
+            h.update(M[:B])
+            r1 = call(h.update, M[B:B + 5])                 # partial block without padding: refused
+            r2 = call(h.update, 'not bytes')
+            c = h.padmethod.bitcnt
+            h.update(M[B:2 * B])
+            r3 = call(h.update, M[:B + 3])
+            return h.update(M[2 * B:], padding=True), c, (is_exc(r1), is_exc(r3))
+        got = call(run_)
+        det = dict(h=name, lenM=len(M))
+        if is_exc(got):
+            ctx.eq('refused-piece:piecewise==reference', got, external(name, M), **det)
+        else:
+            ctx.eq('refused-piece:piecewise==reference', got[0], external(name, M), refused=got[2], **det)
+            ctx.eq('bitcnt-after-piece', [got[1]], [8 * B], after_refused_piece=True, **det)
+    elif k == 'no-initstate':
+        # a freshly constructed MD/SHA object is ready for update() (the constructor initialises the state)
+        name = case['h']
+        B, w = info(name)
+        ctx.cls((name, 'no-initstate', case['j'] % 3))
+        M = rng.randbytes(rng.choice([0, 1, B, 2 * B + 3]))
+        cut = (len(M) // B) * B if case['j'] % 2 else 0
+        def run_():
+            h = make(name)
+            if cut: h.update(M[:cut])
+            return h.update(M[cut:], padding=True)
+        ctx.eq('fresh-object-update==reference', call(run_), external(name, M), h=name, lenM=len(M), cut=cut)
+    elif k == 'nil-3pieces':
+        from crysp.nilsimsa import Nilsimsa
+        n = case['n']
+        M = rng.randbytes(n)
+        ctx.cls(('nilsimsa-3pieces', n))
+        model = simhash.nilsimsa(M)
+        cnt = 0
+        for c1 in range(0, n + 1):
+            for c2 in range(c1, n + 1):
+                got = call(lambda: Nilsimsa().update(M[:c1]).update(M[c1:c2]).update(M[c2:]).digest())
+                ctx.eq('nilsimsa:cut==model', got, model, n=n, cuts=(c1, c2), M=M); cnt += 1
+        ctx.exhaustive['nilsimsa: every pair of byte cuts (three pieces) of a message of %d bytes' % n] += cnt
     elif k == 'nil-allcuts':
         from crysp.nilsimsa import Nilsimsa
         n, t = case['n'], case['target']
